@@ -294,6 +294,40 @@ def comp_to_loop(root):
     return _rewrite_all(root, tr)
 
 
+def hoist_args(root):
+    """Behaviour-preserving rewrite: 'f(g(x))' as a statement -> '_h0 = g(x); f(_h0)' (call arguments that are calls are
+    bound to a temporary first; receiver lookups in this package are pure)."""
+    import ast
+
+    def tr(tree):
+        k = 0
+        for fn in [x for x in ast.walk(tree) if isinstance(x, (ast.FunctionDef, ast.AsyncFunctionDef))]:
+            if any(isinstance(x, (ast.Lambda, ast.Global, ast.Nonlocal)) for x in ast.walk(fn)):
+                continue
+            counter = [0]
+            for node in ast.walk(fn):
+                for field in ("body", "orelse", "finalbody"):
+                    blk = getattr(node, field, None)
+                    if not (isinstance(blk, list) and blk and isinstance(blk[0], ast.stmt)):
+                        continue
+                    out = []
+                    for st in blk:
+                        call = st.value if isinstance(st, ast.Expr) and isinstance(st.value, ast.Call) else None
+                        if call is not None and not any(isinstance(x, (ast.Await, ast.Yield, ast.YieldFrom, ast.NamedExpr, ast.GeneratorExp, ast.ListComp)) for x in ast.walk(call)):
+                            for i, a in enumerate(call.args):
+                                if isinstance(a, ast.Call):
+                                    name = f"_h{counter[0]}"
+                                    counter[0] += 1
+                                    out.append(ast.Assign([ast.Name(name, ast.Store())], a))
+                                    call.args[i] = ast.Name(name, ast.Load())
+                                    k += 1
+                        out.append(st)
+                    setattr(node, field, out)
+        return k
+
+    return _rewrite_all(root, tr)
+
+
 def run_one(entry, evidence_dir):
     mid, kind, props, rule, file, old, new = entry
     d = tempfile.mkdtemp(prefix="indilint-selftest-")
@@ -314,6 +348,8 @@ def run_one(entry, evidence_dir):
             res["classes"] = reorder_methods(d)
         elif file == "*add-logging*":
             res["functions"] = add_logging(d)
+        elif file == "*hoist-args*":
+            res["hoisted"] = hoist_args(d)
         elif file == "*swap-eq*":
             res["comparisons"] = swap_eq(d)
         elif file == "*comp-to-loop*":
@@ -371,6 +407,7 @@ def run_for_property(prop: str, jobs: int = 16):
     entries.append((f"{prop}-reorder-methods", "preserve", [prop], None, "*reorder-methods*", "", ""))
     entries.append((f"{prop}-add-logging", "preserve", [prop], None, "*add-logging*", "", ""))
     entries.append((f"{prop}-swap-eq", "preserve", [prop], None, "*swap-eq*", "", ""))
+    entries.append((f"{prop}-hoist-args", "preserve", [prop], None, "*hoist-args*", "", ""))
     entries.append((f"{prop}-comp-to-loop", "preserve", [prop], None, "*comp-to-loop*", "", ""))
     t0 = time.time()
     evdir = tempfile.mkdtemp(prefix="indilint-selftest-ev-")
@@ -402,6 +439,7 @@ def main(argv=None):
     entries.append(("all-reorder-methods", "preserve", allprops, None, "*reorder-methods*", "", ""))
     entries.append(("all-add-logging", "preserve", allprops, None, "*add-logging*", "", ""))
     entries.append(("all-swap-eq", "preserve", allprops, None, "*swap-eq*", "", ""))
+    entries.append(("all-hoist-args", "preserve", allprops, None, "*hoist-args*", "", ""))
     entries.append(("all-comp-to-loop", "preserve", allprops, None, "*comp-to-loop*", "", ""))
     if sel:
         entries = [e for e in entries if set(e[2]) & sel]
